@@ -59,8 +59,22 @@ def run_check(pid: str, tier: str, repo=None) -> int:
     ctx = Ctx(repo, tier)
     chk = Check(pid, tier, ctx.prog)
     mod = importlib.import_module(f'pkstatic.rules.{pid.lower()}')
-    mod.run(chk, ctx)
-    ctx.definite_assignment(chk)
+    from .model import AnalysisError
+    try:
+        mod.run(chk, ctx)
+        ctx.definite_assignment(chk)
+    except AnalysisError as ex:
+        # a rule could not be evaluated (an anchor moved or vanished).  When the clauses that could be evaluated - the general ones
+        # included - already show a violation, that finding is reported; an analysis error is the verdict only when nothing else is
+        from .report import load_known
+        known, _ = load_known()
+        try:
+            ctx.definite_assignment(chk)
+        except AnalysisError:
+            pass
+        if not any(not o.ok and (pid, o.rule, o.construct) not in known for o in chk.obs):
+            raise
+        chk.note(f'a rule could not be evaluated and was skipped: {ex}')
     if tier == 'thorough':
         from .report import load_known
         known, _ = load_known()
